@@ -12,7 +12,8 @@ SOURCES = {'mj_arenaAllocByte'}
 REPORTERS = {'mj_warning', 'mju_error'}
 FILES = ['src/engine/engine_collision_driver.c', 'src/engine/engine_core_constraint.c', 'src/engine/engine_island.c',
          'src/engine/engine_derivative.c']
-UNITS = [('src/engine/engine_collision_driver.c', 'pushPairArena'),
+UNITS = [('src/engine/engine_memory.c', 'mj_arenaAllocByte'),
+         ('src/engine/engine_collision_driver.c', 'pushPairArena'),
          ('src/engine/engine_core_util.c', 'mj_warning'),
          ('src/engine/engine_core_constraint.c', 'mj_clearEfc'),
          ('src/engine/engine_core_constraint.c', 'mj_addContact'),
@@ -57,7 +58,7 @@ def main():
                 continue
             dt = (time.time() - t0) / max(1, len(sites))
             for site in sites:
-                chk.external('nullable/%s/%s@%s' % (os.path.basename(rel), fn, site), site not in probs, 'typestate-vc', dt,
+                chk.external('nullable/%s/%s/%s' % (os.path.basename(rel), fn, site), site not in probs, 'typestate-vc', dt,
                              detail='; '.join(probs.get(site, [])))
             chk.units.append({'file': rel, 'function': fn, 'status': 'nullable typestate VC', 'call_sites': len(sites)})
     # 2. cross-site consistency: every arena-allocated mjData pointer is cleared by mj_clearEfc (so a failure path leaves no dangling pointer)
@@ -71,7 +72,12 @@ def main():
     C['mj_clearEfc'] = ce
     chk.extra_cov['arena_pointer_fields'] = fields
     # 3. contracts on the anchored allocation wrappers (symbolic execution of the real bodies, callee by contract)
+    from contracts import memory
     for rel, fn in UNITS:
+        if fn == 'mj_arenaAllocByte':      # the callee's own contract (shared with C19): "never writes outside the arena" rests on it
+            from props.C19 import replayer as c19_replayer
+            chk.unit(rel, fn, memory.CONTRACTS, 'math', 'opaque', replayer=c19_replayer)
+            continue
         chk.unit(rel, fn, C, 'math', 'opaque', replayer=None, check_arith=(fn != 'mj_warning'))
     chk.assumptions.add('mj_warning: the per-warning counter does not reach INT_MAX (its increment is not checked for overflow)')
     return chk.finish()
